@@ -35,6 +35,7 @@ From Coq Require Import PrimFloat.
 From Coq Require Import ZArith List Bool Reals Lra Permutation Sorted.
 From BZ Require Import Base.Ops Gen.Point Gen.Line Gen.Quad Gen.Cubic Gen.CurveDist Hand.MinDist Proofs.C20 Proofs.C20term Proofs.C20termF Base.FloatCmp.
 Import ListNotations.
+From BZ Require Gen.PathOps Proofs.Bridge5.
 From BZ Require Proofs.Transfer4.
 From BZ Require Gen.Sample Gen.MinDist Proofs.Bridge4.
 Open Scope R_scope.
@@ -273,6 +274,18 @@ Proof. exact @Transfer4.gen_curveDistance_CC_realised. Qed.
 Theorem C20_gen_curveDistance_CC_ge_true_min :
   forall (fuel : nat) (a b : seg4 R) (d t1 t2 lo : R), (forall u v : R, 0 <= u <= 1 -> 0 <= v <= 1 -> lo <= seg_dist (SCubic a) (SCubic b) u v) -> MinDist.curvedistance_curveDistance_Cubic_Cubic ROps fuel a b = Some (Sample.Returns (d, t1, t2)) -> lo <= d.
 Proof. exact @Transfer4.gen_curveDistance_CC_ge_true_min. Qed.
+Theorem C20_gen_seg_sample_times :
+  forall (T : Type) (O : Ops T), Bridge2.lit_ok O -> forall (fuel : nat) (s : segment T) (z : Z), Bridge2.gen_seg_sample O fuel s (ofZ O z) = sample O fuel z s.
+Proof. exact @Bridge5.gen_seg_sample_times. Qed.
+Theorem C20_distanceToPath_bridge :
+  forall (T : Type) (O : Ops T), Bridge2.lit_ok O -> forall (fuel : nat) (z : Z) (segs1 segs2 : list (segment T)), let g := PathOps.Path_distanceToPath O fuel segs1 segs2 (ofZ O z) in let h := distanceToPath_gen O (curveDistance O fuel) fuel z segs1 segs2 in (segs2 <> [] -> Bridge5.dp_rel g h) /\ (segs2 = [] -> h = UnboundErr /\ (g = None \/ g = Some (Sample.Raises Sample.PyUnboundLocalError))).
+Proof. exact @Bridge5.distanceToPath_bridge. Qed.
+Theorem C20_distanceToPath_bridge_some :
+  forall (T : Type) (O : Ops T), Bridge2.lit_ok O -> forall (fuel : nat) (z : Z) (segs1 segs2 : list (segment T)) (o : Sample.outcome (T * T * T * segment T * segment T)), PathOps.Path_distanceToPath O fuel segs1 segs2 (ofZ O z) = Some o -> Bridge5.dp_rel (Some o) (distanceToPath_gen O (curveDistance O fuel) fuel z segs1 segs2).
+Proof. exact @Bridge5.distanceToPath_bridge_some. Qed.
+Theorem C20_distanceToPath_bridge_default :
+  forall (T : Type) (O0 : Ops T), Bridge2.lit_ok O0 -> forall (fuel : nat) (segs1 segs2 : list (segment T)), (32 <= fuel)%nat -> sample_times O0 32 (ofZ O0 0) (dvd O0 (ofZ O0 1) (ofZ O0 10)) <> None -> let g := PathOps.Path_distanceToPath O0 fuel segs1 segs2 (ofZ O0 10) in let h := distanceToPath O0 fuel segs1 segs2 in (segs2 <> [] -> Bridge5.dp_rel g h) /\ (segs2 = [] -> h = UnboundErr /\ (g = None \/ g = Some (Sample.Raises Sample.PyUnboundLocalError))).
+Proof. exact @Bridge5.distanceToPath_bridge_default. Qed.
 
 Print Assumptions C20_S_is_sqdist_2_2.
 Print Assumptions C20_S_is_sqdist_2_3.
@@ -352,3 +365,7 @@ Print Assumptions C20_gen_curveDistance_CQ_realised.
 Print Assumptions C20_gen_curveDistance_CC_outcomes.
 Print Assumptions C20_gen_curveDistance_CC_realised.
 Print Assumptions C20_gen_curveDistance_CC_ge_true_min.
+Print Assumptions C20_gen_seg_sample_times.
+Print Assumptions C20_distanceToPath_bridge.
+Print Assumptions C20_distanceToPath_bridge_some.
+Print Assumptions C20_distanceToPath_bridge_default.
